@@ -1,0 +1,201 @@
+//! Read-only projections of the Covercrypt objects used by the external
+//! verification harness. Only compiled with `--cfg cosmian_cover_crypt_verif`.
+//!
+//! Nothing here mutates any object: each function returns a JSON view of the
+//! private state (secrets are replaced by truncated SHA3 fingerprints).
+
+use cosmian_crypto_core::bytes_ser_de::{Deserializer, Serializable};
+use serde_json::{json, Value};
+use tiny_keccak::{Hasher, Sha3};
+
+use super::verify;
+use crate::{
+    abe_policy::Right,
+    core::{
+        Encapsulations, MasterPublicKey, MasterSecretKey, RightPublicKey, RightSecretKey, UserId,
+        UserSecretKey, XEnc,
+    },
+};
+
+fn fp(bytes: &[u8]) -> String {
+    let mut hasher = Sha3::v256();
+    let mut out = [0u8; 32];
+    hasher.update(bytes);
+    hasher.finalize(&mut out);
+    out[..8].iter().map(|b| format!("{b:02x}")).collect()
+}
+
+fn fp_ser<T: Serializable>(v: &T) -> String {
+    match v.serialize() {
+        Ok(bytes) => fp(&bytes),
+        Err(_) => "ser-error".to_string(),
+    }
+}
+
+fn right_ids(r: &Right) -> Value {
+    let mut de = Deserializer::new(r);
+    let mut ids = Vec::new();
+    while !de.value().is_empty() {
+        match de.read_leb128_u64() {
+            Ok(id) => ids.push(json!(id)),
+            Err(_) => return json!({ "raw": r.iter().map(|b| format!("{b:02x}")).collect::<String>() }),
+        }
+    }
+    Value::Array(ids)
+}
+
+fn id_fp(id: &UserId) -> String {
+    let mut bytes = Vec::new();
+    for marker in id.iter() {
+        if let Ok(b) = marker.serialize() {
+            bytes.extend_from_slice(&b);
+        }
+    }
+    fp(&bytes)
+}
+
+fn sk_view(sk: &RightSecretKey) -> (String, bool, Option<String>) {
+    match sk {
+        RightSecretKey::Hybridized { sk, dk } => (fp_ser(sk), true, Some(fp_ser(dk))),
+        RightSecretKey::Classic { sk } => (fp_ser(sk), false, None),
+    }
+}
+
+impl MasterSecretKey {
+    /// JSON projection of the master secret key.
+    pub fn verif_view(&self) -> Value {
+        let h = self.tsk.binding_point();
+        let mut rights = self
+            .secrets
+            .iter()
+            .map(|(r, chain)| {
+                let ch = chain
+                    .iter()
+                    .map(|(is_activated, sk)| {
+                        let (s, hyb, dk) = sk_view(sk);
+                        let p = match sk.cpk(&h) {
+                            RightPublicKey::Hybridized { H, .. } => fp_ser(&H),
+                            RightPublicKey::Classic { H } => fp_ser(&H),
+                        };
+                        let mut e = json!({ "s": s, "p": p, "h": hyb, "a": *is_activated });
+                        if let Some(dk) = dk {
+                            e["dk"] = json!(dk);
+                        }
+                        e
+                    })
+                    .collect::<Vec<_>>();
+                (r.clone(), json!({ "r": right_ids(r), "ch": ch }))
+            })
+            .collect::<Vec<_>>();
+        rights.sort_by(|(a, _), (b, _)| a.cmp(b));
+        let mut users = self.tsk.users.iter().map(id_fp).collect::<Vec<_>>();
+        users.sort();
+        json!({
+            "rights": rights.into_iter().map(|(_, v)| v).collect::<Vec<_>>(),
+            "users": users,
+            "tracers": self.tsk.tracers.iter().map(|(_, p)| fp_ser(p)).collect::<Vec<_>>(),
+            "signing_key": self.signing_key.is_some(),
+            "st": self.access_structure.verif_view(),
+        })
+    }
+
+    /// Relations between a user key and this master key that cannot be
+    /// observed from outside: identifier known, tracing relation, public
+    /// tracers, signature.
+    pub fn verif_check_usk(&self, usk: &UserSecretKey) -> Value {
+        let tracers = self
+            .tsk
+            .tracers
+            .iter()
+            .map(|(_, p)| p.clone())
+            .collect::<Vec<_>>();
+        json!({
+            "known": self.tsk.is_known(&usk.id),
+            "rel": usk.id.0.len() == self.tsk.tracers.len() && self.tsk._validate_user_id(&usk.id),
+            "ps": usk.ps == tracers,
+            "sig": verify(self, usk).is_ok(),
+            "level_usk": usk.id.0.len(),
+            "level_msk": self.tsk.tracers.len(),
+        })
+    }
+}
+
+impl MasterPublicKey {
+    /// JSON projection of the master public key.
+    pub fn verif_view(&self) -> Value {
+        let mut keys = self
+            .encryption_keys
+            .iter()
+            .map(|(r, pk)| {
+                let v = match pk {
+                    RightPublicKey::Hybridized { H, ek } => {
+                        json!({ "r": right_ids(r), "p": fp_ser(H), "h": true, "ek": fp_ser(ek) })
+                    }
+                    RightPublicKey::Classic { H } => {
+                        json!({ "r": right_ids(r), "p": fp_ser(H), "h": false })
+                    }
+                };
+                (r.clone(), v)
+            })
+            .collect::<Vec<_>>();
+        keys.sort_by(|(a, _), (b, _)| a.cmp(b));
+        json!({
+            "keys": keys.into_iter().map(|(_, v)| v).collect::<Vec<_>>(),
+            "tpk": self.tpk.0.iter().map(fp_ser).collect::<Vec<_>>(),
+            "st": self.access_structure.verif_view(),
+        })
+    }
+}
+
+impl UserSecretKey {
+    /// JSON projection of the user secret key (rights in stored order).
+    pub fn verif_view(&self) -> Value {
+        json!({
+            "id": id_fp(&self.id),
+            "markers": self.id.0.len(),
+            "ps": self.ps.iter().map(fp_ser).collect::<Vec<_>>(),
+            "ch": self
+                .secrets
+                .iter()
+                .map(|(r, chain)| {
+                    json!({
+                        "r": right_ids(r),
+                        "c": chain
+                            .iter()
+                            .map(|sk| {
+                                let (s, hyb, _) = sk_view(sk);
+                                json!({ "s": s, "h": hyb })
+                            })
+                            .collect::<Vec<_>>(),
+                    })
+                })
+                .collect::<Vec<_>>(),
+            "sig": self.signature.is_some(),
+        })
+    }
+}
+
+impl XEnc {
+    /// JSON projection of an encapsulation.
+    pub fn verif_view(&self) -> Value {
+        let (hyb, entries) = match &self.encapsulations {
+            Encapsulations::HEncs(v) => (
+                true,
+                v.iter()
+                    .map(|(e, f)| json!({ "e": fp_ser(e), "f": fp(f) }))
+                    .collect::<Vec<_>>(),
+            ),
+            Encapsulations::CEncs(v) => (
+                false,
+                v.iter().map(|f| json!({ "f": fp(f) })).collect::<Vec<_>>(),
+            ),
+        };
+        json!({
+            "tag": fp(&self.tag),
+            "c": self.c.iter().map(fp_ser).collect::<Vec<_>>(),
+            "h": hyb,
+            "n": entries.len(),
+            "encs": entries,
+        })
+    }
+}
